@@ -431,10 +431,35 @@ Definition cworld := @world net.
 
 Inductive ul_mode := UUpload | URaw | UReads (caps : list Z).   (* upload() / open(buffering=0).read() / raw reads of a buffered wrapper *)
 
+(* the client's object dictionary entry at the index of the transfer, as far as SdoClient.upload looks
+   at it through ObjectDictionary.get_variable(index, subindex): a variable, a record or an array with
+   the data types of the members it lists *)
+Inductive odshape :=
+| ONone                                        (* index not in the dictionary *)
+| OVarT (dt : option Z)                        (* ODVariable: found whatever the sub-index *)
+| ORecT (members : list (Z * option Z))        (* ODRecord.get(subindex) *)
+| OArrT (members : list (Z * option Z)).       (* ODArray.get(subindex) *)
+
+(* data_type of get_variable's result.  ODArray.__getitem__ answers an unlisted sub-index 1..255 with a
+   variable made from the member at sub-index 1 (data_type copied); Mapping.get turns KeyError into None *)
+Definition od_get_type (o : odshape) (sub : Z) : option Z :=
+  match o with
+  | ONone => None
+  | OVarT dt => dt
+  | ORecT ms => match zassoc sub ms with Some dt => dt | None => None end
+  | OArrT ms =>
+      match zassoc sub ms with
+      | Some dt => dt
+      | None => if (0 <? sub) && (sub <? 256)
+                then match zassoc 1 ms with Some dt => dt | None => None end
+                else None
+      end
+  end.
+
 Inductive xfer_case :=
 | TDl (idx sub : Z) (data : list Z) (size : option Z) (force : bool) (sched : list Z)
 | TDlOps (idx sub : Z) (data : list Z) (size : option Z) (force : bool) (ops : list Z)  (* buffered open *)
-| TUl (idx sub : Z) (odt : option Z) (mode : ul_mode)
+| TUl (idx sub : Z) (od : odshape) (mode : ul_mode)
 | TPut (idx sub : Z) (value : list Z).     (* the server's application changes the object *)
 
 Record tcase := {
@@ -459,8 +484,8 @@ Definition run_xfer (w : cworld) (x : xfer_case) : cworld * val :=
   | TDlOps idx sub data size force ops =>
       let '(w1, r) := replay_write net_step w idx sub size force data ops in
       (w1, res_val (fun _ => VNone) r)
-  | TUl idx sub odt UUpload =>
-      let '(w1, r) := sdo_upload net_step FUEL w idx sub odt in (w1, res_val VB r)
+  | TUl idx sub od UUpload =>
+      let '(w1, r) := sdo_upload net_step FUEL w idx sub (od_get_type od sub) in (w1, res_val VB r)
   | TUl idx sub odt URaw =>
       let '(w1, _, r) := read_whole net_step FUEL w idx sub in (w1, res_val VB r)
   | TUl idx sub odt (UReads caps) =>
@@ -591,7 +616,7 @@ Definition spec_xfer (sty : style) (store : list (Z * list Z)) (x : xfer_case) :
        match zassoc (mux_key idx sub) store with
        | None => VAbort 100794368      (* 0x06020000 object does not exist *)
        | Some v => match mode with
-                   | UUpload => VB (expected_upload sty odt v)
+                   | UUpload => VB (expected_upload sty (od_get_type odt sub) v)
                    | _ => VB (wire_value sty v)
                    end
        end)
